@@ -418,7 +418,9 @@ def shards(tier: str) -> List[Dict[str, Any]]:
                                 + (",orders=" + "/".join("sym" if o is None else "len-left" for o in orders) if orders else ""),
                         "params": {"template": name, "slots": k, "ops": ops, "orders": orders},
                         "budget_s": budget * 2 if (tier == "quick" and k == 3 and not name.startswith("unrecognised")) else budget,
-                        "per_path_timeout": 60})
+                        "per_path_timeout": 60,
+                        # three equalities give the largest trees: under a budget in the quick tier, exhaustive in thorough
+                        **({"exploratory": True} if (tier == "quick" and ops == [2, 2, 2] and name in ("own3", "chain")) else {})})
     weight = {"own3": 0, "chain": 1, "constrained_primitive": 1, "reversed_primitive_chain": 1}
     out.sort(key=lambda shard: weight.get(shard["params"]["template"], 2))  # the long ones start first
     return out
